@@ -158,7 +158,8 @@ Section Theorems.
           destruct (bytes_eqb_spec (atomic_name a) domain_name) as [E|_]; [exfalso; eapply domain_name_not_atomic; exact E|].
           exact Ha.
       - eapply (proj1 (repr_gperm_mut big_other (d_types d))); [exact Rd | exact Hdom].
-      - eapply (proj1 (repr_gperm_mut big_other (d_types d))); [exact Rm | exact Hmsg]. }
+      - destruct Rm as [Rm|Rm]; [left; exact Rm|right].
+        eapply (proj1 (repr_gperm_mut big_other (d_types d))); [exact Rm | exact Hmsg]. }
     split; [apply digest_is_spec; assumption | eapply same_doc_same_digest; eassumption].
   Qed.
 
@@ -201,7 +202,8 @@ Section Theorems.
     assert (R' : represents big_other td' d).
     { destruct R as (Rt & Rp & Rd & Rm). split; [rewrite Ht; exact Rt|split; [congruence|split]].
       - eapply (proj1 (repr_same_members_mut big_other (d_types d))); [exact Rd | exact Hdom].
-      - eapply (proj1 (repr_same_members_mut big_other (d_types d))); [exact Rm | exact Hmsg]. }
+      - destruct Rm as [Rm|Rm]; [left; exact Rm|right].
+        eapply (proj1 (repr_same_members_mut big_other (d_types d))); [exact Rm | exact Hmsg]. }
     split; [apply digest_is_spec; assumption | eapply same_doc_same_digest; eassumption].
   Qed.
 
